@@ -247,6 +247,44 @@ func planC09(tier string, root *simcore.RNG) *plan {
 		}
 		pl.scenarios = append(pl.scenarios, sc)
 	}
+	// configuration sweep: one signature of every renderer kind under every CPU count
+	// (= runtime.NumCPU, worker pool size) and two GOMAXPROCS values, unperturbed
+	{
+		r0 := root.Fork()
+		have := map[string]bool{}
+		for _, s := range cat {
+			have[s.key()] = true
+		}
+		kinds := []c09sig{
+			{"mcu", pick(r0, model3Names), "tri", 12}, {"mco", pick(r0, model3Names), "stl", 12},
+			{"msu", pick(r0, model2Names), "svg", 24}, {"msq", pick(r0, model2Names), "dxf", 24}, {"msq", pick(r0, model2Names), "svg", 40},
+			{"dc2", pick(r0, model2Names), "dxf", 16}, {"dc3v2", "sphere-box", "tri", 6}, {"dc3v1", "csg", "stl", 6},
+		}
+		cpus := []int{1, 2, 3, 4, 8, 16}
+		if tier != "thorough" {
+			cpus = []int{1, 2, 3, 8}
+		}
+		for _, s := range kinds {
+			if !have[s.key()] {
+				have[s.key()] = true
+				cat = append(cat, s)
+				pl.scenarios = append(pl.scenarios, &Scenario{Prop: "C09", Family: "render", Seed: r0.Uint64(), Groups: [][]Job{{s.job(1)}},
+					Sched: Sched{Policy: "fifo"}, Sites: map[string]uint32{}, Env: Env{GOMAXPROCS: 16, CPUs: 16}, Note: "canonical"})
+			}
+			for _, c := range cpus {
+				for _, gmp := range []int{1, 16} {
+					r := root.Fork()
+					j := s.job(1)
+					sites := map[string]uint32{"close": 1, "go.start": 1, "worker.start": 1, "auto": 2}
+					for _, hs := range sinkSites(s.sink) {
+						sites[hs] = 1
+					}
+					pl.scenarios = append(pl.scenarios, &Scenario{Prop: "C09", Family: "render", Seed: r.Uint64(), Groups: [][]Job{{j}},
+						Sites: sites, Sched: Sched{Policy: pick(r, []string{"uniform", "lifo", "fifo"}), Seed: r.Uint64()}, Env: Env{GOMAXPROCS: gmp, CPUs: c}, Note: "config-sweep"})
+				}
+			}
+		}
+	}
 	// composites rendered by the worker pool with the evaluations parked inside
 	// the model (between the children of a union / intersection / array)
 	{
